@@ -834,6 +834,10 @@ class Sym:
             return NotImplemented
         so = shadow_of(o)
         cpair = getattr(o, 'c', None) if isinstance(o, Sym) else None
+        if cpair is not None:
+            if not hasattr(ENG, 'cancel_divs'):
+                ENG.cancel_divs = []
+            ENG.cancel_divs.append((cpair[0], cpair[1], d))     # a divisor formed by cancellation (conditioning obligations, C17)
         if cpair is not None and ENG.opts.get('absorption'):
             # the divisor was computed as A - B with A, B >= 0: in floats it is exactly 0 as soon as the real
             # difference is below half an ulp of the operands (absorption / cancellation), not only when A == B
